@@ -27,7 +27,7 @@ Trace == ndJsonDeserialize(IOEnv.TRACE_FILE)
 TraceInit ==
   /\ l = 1
   /\ base = 1 /\ pos = 0 /\ phase = "done" /\ line = <<>> /\ mut = <<NoMut>>
-  /\ cls = [c |-> "X", w |-> "", b |-> 0, amb |-> FALSE]
+  /\ cls = [c |-> "X", w |-> "", b |-> 0, amb |-> FALSE, at |-> 0]
   /\ TLCSet(FirstBad, 0) /\ TLCSet(NumD, 0) /\ TLCSet(NumE, 0) /\ TLCSet(NumX, 0)
 
 SigsFor(r, cl) ==
@@ -38,9 +38,10 @@ SigsFor(r, cl) ==
   \cup (IF ~o.ret /\ ~o.crash THEN {"nonreturn"} ELSE {})
   \cup (IF o.panic THEN {"reader-panic"} ELSE {})
   \cup (IF o.accpanic THEN {"accessor-panic"} ELSE {})
-  \cup (IF o.ret /\ ~o.crash /\ cl.c = "E" /\ ~o.err
+  \* (after a panic the outcome of the call is a consequence of it: only the panic is reported)
+  \cup (IF o.ret /\ ~o.crash /\ ~o.panic /\ ~o.accpanic /\ cl.c = "E" /\ ~o.err
           THEN {"not-rejected/" \o cl.w \o "/" \o r.k} ELSE {})
-  \cup (IF o.ret /\ ~o.crash /\ cl.c = "D" /\ o.status # Bases[cl.b].st
+  \cup (IF o.ret /\ ~o.crash /\ ~o.panic /\ ~o.accpanic /\ cl.c = "D" /\ o.status # Bases[cl.b].st
           THEN {"conformant-rejected/" \o r.k \o "/" \o Bases[cl.b].name} ELSE {})
 
 Count(cl) ==
@@ -50,7 +51,7 @@ Count(cl) ==
 
 Report(r, cl) ==
   LET sigs == SigsFor(r, cl) IN
-  /\ \A sg \in sigs : PrintT(<<"BAD", ToJson([line |-> l, sig |-> sg, class |-> cl.c, why |-> cl.w])>>)
+  /\ \A sg \in sigs : PrintT(<<"BAD", ToJson([line |-> l, sig |-> sg, class |-> cl.c, why |-> cl.w, at |-> cl.at])>>)
   /\ (sigs # {} /\ TLCGet(FirstBad) = 0) => TLCSet(FirstBad, l)
   /\ Count(cl)
 
